@@ -6,7 +6,7 @@ The table is keyed by the callee path as rustc resolves it.  It is pinned to the
 versions in /repo/Cargo.lock (checked by cbv.facts.check_lock); if one of those changes
 the checks relying on the summary fail closed.
 """
-from .psi import C, T, is_int_const
+from .psi import C, T, is_int_const, walk
 
 TIMESPEC = 'nix::sys::time::TimeSpec'
 LIBC_TIMESPEC = 'libc::timespec'
@@ -43,6 +43,8 @@ def cmp_op(op):
             x, y = a[1], b[1]
             r = {'lt': x < y, 'le': x <= y, 'gt': x > y, 'ge': x >= y, 'eq': x == y, 'ne': x != y}[op]
             return C(int(r), 'bool')
+        if a == b and a[0] in ('t', 'sym') and not any(x_[0] == 'c' and isinstance(x_[1], tuple) and x_[1][0] == 'f' for x_ in walk(a)):
+            return C(int(op in ('eq', 'le', 'ge')), 'bool')      # one and the same (non-float) value compared with itself
         if op in ('eq', 'ne'):
             # (in)equality against a field-less enum variant is a test of the discriminant
             for x, y in ((a, b), (b, a)):
